@@ -28,10 +28,14 @@ func DrawLayout(t *rapid.T, variant string, f *ir.File, separate *bool) *ir.Layo
 		name := rapid.SampledFrom(pkgNames).Draw(t, "structpkg")
 		mid := rapid.SampledFrom([]string{"", "api/", "gen/go/", "x.y/", "AcmeCorp/", "Gen/Types/"}).Draw(t, "structmid")
 		l.StructDir = variant + "/" + mid + name
+		dotted := rapid.IntRange(0, 4).Draw(t, "dottedpath") == 0
+		if dotted {
+			l.StructDir += ".v1" // gopkg.in / versioned style: the last path element contains a dot
+		}
 		l.StructPath = ir.Module + "/" + l.StructDir
 		l.StructName = name
 		f.GoPackage = l.StructPath
-		if rapid.IntRange(0, 3).Draw(t, "gopkgsemi") == 0 {
+		if dotted || rapid.IntRange(0, 3).Draw(t, "gopkgsemi") == 0 {
 			f.GoPackage = l.StructPath + ";" + name
 		}
 	} else {
